@@ -3,6 +3,7 @@ package main
 import (
 	"fmt"
 	"os"
+	"os/exec"
 	"path/filepath"
 	"sort"
 	"strings"
@@ -130,6 +131,28 @@ func runSelftest(args []string) int {
 		}
 		for _, e := range genErrs {
 			failedNames = append(failedNames, "generator:"+e)
+		}
+		if len(failedNames) == 0 && len(pc.Bounded) > 0 {
+			// the deductive part saw nothing: run the bounded stand-ins on the mutant as well
+			tmp, _ := os.CreateTemp("", "govc-mutant-*.go")
+			tmp.WriteString(mutated)
+			tmp.Close()
+			for _, b := range pc.Bounded {
+				cmd := exec.Command("sh", "-c", b.Cmd)
+				cmd.Dir = verifDir
+				cmd.Env = append(os.Environ(), "GOVC_EXTRA_OVERLAY="+target+"="+tmp.Name())
+				if out, err := cmd.CombinedOutput(); err != nil {
+					line := ""
+					for _, l := range strings.Split(string(out), "\n") {
+						if strings.Contains(l, "_test.go:") {
+							line = strings.TrimSpace(l)
+							break
+						}
+					}
+					failedNames = append(failedNames, "bounded:"+b.Name+" ("+line+")")
+				}
+			}
+			os.Remove(tmp.Name())
 		}
 		ok := len(failedNames) > 0
 		if ok && m.expect != "" && m.expect != "any" {
